@@ -57,6 +57,7 @@
   active set is a function of contents and -M only      contents_determine_outcome (as a SET of entries),
                                                            perm_invariant(_current,_tiefix), dispatch_deterministic;
                                                            witnesses tie_witness, dup_equal_witness, dup_personality_witness
+  ... and of -M / PDSH_MISC_MODULES only                misc_list_from_command_line (composed with C18.precedence)
   -M first, then priority-then-name order               forced_first, spec_sound (clause `order`), list_sort correct
                                                            (Mod/SortLemmas.lean)
   a module with a taken option is inactive as a whole   conflict_all_or_nothing, initialize_all_or_nothing,
@@ -75,6 +76,7 @@ import PdshVerif.Mod.Spec
 import PdshVerif.Mod.SpecSound
 import PdshVerif.Mod.SplitLemmas
 import PdshVerif.Mod.PrioWrap
+import PdshVerif.Props.C18
 
 namespace PdshVerif.C17
 open PdshVerif.Mod
@@ -468,6 +470,21 @@ example :
   intro f
   simp only [List.mem_cons, List.mem_nil_iff, or_false, List.getElem!_eq_getElem?_getD]
   constructor <;> (intro h; rcases h with h | h | h | h <;> subst h <;> simp)
+
+/-! ## where the -M list comes from (composed with C18) -/
+
+/-- "...a function of its contents and of -M/PDSH_MISC_MODULES only": the list of forced modules the loader
+    model takes (`Env.misc`) is, in every accepted run, what C18's model of opt.c delivers (C18.precedence, proved
+    over the option table generated from opt.c): the LAST -M of the command line as the early option pass reads
+    it, else PDSH_MISC_MODULES, else nothing -- so the outcome of module loading is the same for any two command
+    lines and environments that agree on that one value (and on the directory) -/
+theorem misc_list_from_command_line {fx : Opt.Fixes} {d : Opt.Defaults} {p : Opt.Pers} {env : Opt.Env}
+    {argv : List Opt.Str} {c : Opt.Cfg} (h : Opt.effective fx d p env argv = .ok c) (e : Env) :
+    Tie.loadAllPF { e with misc := c.miscModules } =
+      Tie.loadAllPF { e with misc := (Opt.lastArg 'M' (Opt.getopt (Opt.earlyString fx d p) argv).1 <|>
+                                      Opt.getenv env "PDSH_MISC_MODULES") } := by
+  obtain ⟨_, _, _, _, _, a6, _⟩ := C18.precedence h
+  rw [a6]
 
 /-! ## priorities on a 32-bit int -/
 
